@@ -1,6 +1,6 @@
 #!/usr/bin/env python3-vt
 """C18: an injected fault fires exactly its count, only on matching calls -- for every schedule of concurrent callers."""
-import sys, os
+import sys, os, json
 sys.path.insert(0, os.path.dirname(os.path.dirname(os.path.abspath(__file__))))
 import z3
 from gosym.core import *
@@ -246,9 +246,26 @@ def prune_vs_add(chk, prog):
         for k, v in m.ents:
             kept += [ex.getf(x, 'FaultDescription') for x in v.items()]
         d = lambda mdl: {'add placed': st['added_at'], 'counts': [mdl.eval(c, model_completion=True).as_long() for c in counts], 'left in the set': kept}
-        ob.verify(ex, 'concurrent-add-is-not-lost', 'added' in kept, d)
+
+        def rp(mdl, desc):
+            # the schedule class "Add arrives while prune is at work" on the real code: the scan is made long and prune is caught in
+            # the act through the lock (schedules with Add before / after prune are sequential and need no race)
+            from gosym import replay
+            if not str(desc['add placed']).startswith('before lock acquisition') or desc['add placed'].endswith(' 1 of prune'):
+                return False, None
+            live = sum(1 for c in desc['counts'] if c > 0)
+            ok, out, outs = replay.run_go_test('faults', 'zz_verif_faults_replay_test.go', 'TestVerifFaultsReplay',
+                                               {'VERIF_FAULTS_OUT': '$DIR/out.json', 'VERIF_FAULTS_LIVE': str(live)})
+            path = replay.save_scenario('C18', 'prune-vs-add', {'schedule': desc, 'real run': outs.get('VERIF_FAULTS_OUT'), 'driver': 'replay/zz_verif_faults_replay_test.go'})
+            if 'VERIF_FAULTS_OUT' not in outs:
+                raise RuntimeError(out[-400:])
+            r = json.loads(outs['VERIF_FAULTS_OUT'])
+            if r['conclusive'] == 0:
+                return False, path
+            return (r['add_lost'] > 0 or r['live_lost'] > 0), path
+        ob.verify(ex, 'concurrent-add-is-not-lost', 'added' in kept, d, replay=rp)
         for i in range(n):
-            ob.verify(ex, 'live-fault-survives-prune-and-add[%d]' % i, Implies(counts[i] > 0, ('d%d' % i) in kept), d)
+            ob.verify(ex, 'live-fault-survives-prune-and-add[%d]' % i, Implies(counts[i] > 0, ('d%d' % i) in kept), d, replay=rp)
     chk.run('prune-against-concurrent-add', prog, harness, bounds={'descriptions before': '1..2', 'counts': '-1..2', 'interleaving': 'Add as one atomic step at every lock acquisition of prune'},
             pats=[(__import__('re').compile(r'^\(\*?github\.com/prometheus/client_golang/prometheus\.'), prom_any)])
 
